@@ -16,6 +16,7 @@ from .gamma import Gamma
 def observe(H, g):
     iN, iE = g.inv_node, g.inv_edge
     o, errs = {}, []
+    rng = random.Random(H.num_nodes * 7919 + H.num_edges)
 
     def get(name, f, default):
         with warnings.catch_warnings():
@@ -42,8 +43,11 @@ def observe(H, g):
         return [iN(n) for n in G.nodes], [[iN(a), iN(b)] for a, b in G.edges]
     o["gnodes"], o["glinks"] = get("to_graph", graph, ([], [])) if nodes else ([iN(n) for n in nodes], [])
     line = []
-    for s in (1, 2, 3):
+    for s in (0, 1, 2, 3):
         for w in (None, "absolute", "normalized"):
+            if s == 0 and w == "normalized" and any(len(m) == 0 for m in H._edge.values()):
+                continue  # 0 / min(0, .) is not defined
+
             def lg(s=s, w=w):
                 G = xgi.to_line_graph(H, s=s, weights=w)
                 return {"s": s, "w": w or "none", "nodes": [iE(e) for e in G.nodes],
@@ -62,6 +66,29 @@ def observe(H, g):
             links.append([iN(nd[a]), iE(ed[b])])
         return G.number_of_nodes(), links
     o["bipn"], o["biplinks"] = get("to_bipartite_graph", bip, (-1, []))
+
+    # the directed variant: node -> edge for tail members, edge -> node for head members (a node may be both)
+    def dbip():
+        D = xgi.DiHypergraph()
+        D.add_nodes_from(list(H.nodes))
+        tails, heads = [], []
+        for k, e in enumerate(H.edges):
+            mm = list(H._edge[e])
+            rng.shuffle(mm)
+            c = rng.randrange(len(mm) + 1)
+            t, h = mm[:c], mm[c:] + (mm[:1] if rng.random() < 0.4 else [])
+            D.add_edge((t, h), idx=f"d{k}")
+            tails.append(sorted(iN(x) for x in t))
+            heads.append(sorted(set(iN(x) for x in h)))
+        G, nd, ed = xgi.to_bipartite_graph(D, index=True)
+        arcs = []
+        for a, b in G.edges:
+            if a in nd:
+                arcs.append(["t", iN(nd[a]), int(ed[b][1:]) + 1])
+            else:
+                arcs.append(["h", iN(nd[b]), int(ed[a][1:]) + 1])
+        return [tails, heads, arcs, [G.number_of_nodes(), D.num_nodes + D.num_edges]]
+    o["dbip"] = get("to_bipartite_graph(DiHypergraph)", dbip, [[], [], [["x", -1, -1]], [0, 0]])
     dag = []
     for kind in ("all", "immediate", "empirical"):
         def dg(kind=kind):
